@@ -24,8 +24,16 @@ claim("C16", "exploration",
   "Seeded worlds: frame streams (ids over int32, payload 0..4086 incl. NUL/non-UTF-8) under segmentation/coalescing/back-pressure compared with the reference layout on the wire; declared lengths around both bounds; login with password pairs and command/response histories; byzantine server (other id, wrong type, cut mid-frame) and a conformant foreign client with per-command ids.",
   "The reference layout in the harness is taken as the protocol. Reliable ordered stream assumed. ListenRCON/real TCP not run (the dial lands on a harness task that wraps the server end exactly like RCONListener.Accept).",
   "DESIGN.md 5 C16")
+claim("C14", "exploration",
+  "deterministic simulation of the storage stack: seeded operation histories on a simulated disk (with/without io.WriterAt) and a simulated clock that may jump between the two clock reads of one write; map model + independent Anvil parser after every step; fresh Load compared with the live region",
+  "Seeded histories of 1..400 operations (sizes around sector boundaries and the 255-sector limit; grow/shrink/keep overwrites; read/exist/pad/clean re-open; over-limit writes; clock jumps inside an operation). After every operation: results vs a map model, the whole image re-parsed by an independent Anvil reader (sector>=2, disjoint runs, length+data equal to the model, no phantom/missing entries); periodically offsets, timestamps and every chunk of a fresh Load vs the live region. Fault-free configuration (faults are C15).",
+  "The allocator is deliberately not modelled (only observable results and file validity). Zero-length chunks are outside the statement. Real os.File (region.Create/Open) is not run.",
+  "DESIGN.md 5 C14")
+claim("C15", "fault_enumeration",
+  "deterministic crash simulation: write journal of the simulated disk; for every WriteSector of seeded histories every prefix of its physical writes and every 512-byte tear (plus byte offsets) of the next write is materialised as a copy-on-write crash image, re-opened with the real Load and every other chunk read back; injected short writes (EIO/ENOSPC); histories continue on recovered images",
+  "Histories are sampled by seed; the crash points of each write in them are enumerated: all prefixes of the recorded physical writes, the next write torn at every 512-byte boundary (quick tier: at most 64 boundaries per write, nearest both ends plus samples; thorough: all) and at byte offsets 1,2,3,len-1,random. Oracle per image: Load succeeds, every chunk other than the one being written reads back its last written bytes, absent chunks stay absent, the independent parser finds no overlap among the other entries. Nothing is asserted about the interrupted chunk.",
+  "Crash model = the process stops after a prefix of its physical writes (no reordering/lost fsync), as the statement says. Histories continue after a recovery only from images whose interrupted header entry is whole (zero/old/new); what later writes do with a torn 4-byte entry is outside the statement.",
+  "DESIGN.md 5 C15")
 PENDING.update({
- "C14": "claimed in DESIGN.md; check under construction (not yet registered)",
- "C15": "claimed in DESIGN.md; check under construction (not yet registered)",
  "C19": "claimed in DESIGN.md; check under construction (not yet registered)",
 })
